@@ -166,12 +166,13 @@ func checkC10(c *core.Ctx) {
 		var ok bool
 		var args []string
 		start := "C"
+		pad := i%5 == 2 || i%5 == 3
 		if syllable {
 			start = model.RandKey(r)
-			text, ok = p.SyllableTextPiece(start, model.TextOpts{})
+			text, ok = p.SyllableTextPiece(start, model.TextOpts{ZeroPad: pad, UnicodeAcc: i%7 == 3})
 			args = []string{"text", "conv", "syllable", "--key", start}
 		} else {
-			text, ok = p.DegreeTextPiece(model.TextOpts{Underscore: r.Intn(2) == 0})
+			text, ok = p.DegreeTextPiece(model.TextOpts{Underscore: r.Intn(2) == 0, ZeroPad: pad})
 			args = []string{"text", "conv", "degree"}
 		}
 		if !ok {
@@ -192,7 +193,7 @@ func checkC10(c *core.Ctx) {
 		for j := range pm.Inst {
 			in := pm.Inst[j]
 			meta := map[string]string{}
-			for _, kv := range in.MetaPairs() {
+			for _, kv := range in.MetaPairsPad(pad) { // the metadata map keeps the value as written
 				meta[kv[0]] = kv[1]
 			}
 			if len(meta) > 0 {
@@ -344,6 +345,10 @@ func checkC10(c *core.Ctx) {
 		p := model.RandPiece(r, model.GenOpts{MinLen: 1, MaxLen: 8, RestProb: 0.2, SettingProb: 0.3, TextProb: 0.4, KeyChanges: true, BassProb: 0.5})
 		if !p.Effective(model.Flags{}).AllInRange() || !p.TotalBelow(960, 1<<28) {
 			return
+		}
+		if r.Intn(4) == 0 {
+			// the document ends with a rest whose text ends in blank lines (block scalars with keep chomping)
+			p.Inst = append(p.Inst, model.Instance{Values: one(), Meta: map[string]string{[]string{"lic", "mrk"}[r.Intn(2)]: []string{"end of verse\n\n", "coda\n\n\n", "x\n", "two\n\nbreaks\n\n"}[r.Intn(4)]}})
 		}
 		doc := p.YAML(randWriteOpts(r).style)
 		det := map[string]any{"yaml": short(string(doc), 2500)}
